@@ -214,6 +214,25 @@ def missingAttrs : List (String × String) := emittedKeys.flatMap fun ck => miss
 into the same attribute by the current code) -/
 theorem inp_attribute_coverage : missingAttrs = [] := by decide +kernel
 
+/-- **`derived_fields_by_name`** — the fields the translator found from the source alone really are "same name on both
+sides, same section" (no judgement involved) -/
+theorem derived_fields_by_name : (Gen.fields.filter fun f => f.derived && !f.byName) = [] := by decide +kernel
+
+/-- keys covered neither by a derived field nor by the explicit hand-written remainder `Gen.manualKeys` -/
+def notDerivedNotListed : List (String × String) :=
+  emittedKeys.flatMap fun ck =>
+    let derived := (Gen.fields.filter fun f => f.cls == ck.1 && f.derived).map (·.key)
+    let listed := (Gen.manualKeys.filter fun m => m.1 == ck.1).map (·.2)
+    let out := (Gen.outside.filter fun m => m.1 == ck.1).map (·.2)
+    (ck.2.filter fun k => !out.contains k && !derived.contains k && !listed.contains k).map fun k => (ck.1, k)
+
+/-- **`spec_remainder_explicit`** — every attribute `to_dict` emits that the statement does not exclude is carried by a
+field DERIVED from the source, or is one of the pairs of the short explicit list `Gen.manualKeys` (printed in the
+evidence), each of which has a hand-written field -/
+theorem spec_remainder_explicit :
+    notDerivedNotListed = [] ∧ (Gen.manualKeys.all fun m => Gen.fields.any fun f => f.cls == m.1 && f.key == m.2 && !f.derived) = true := by
+  constructor <;> decide +kernel
+
 /-- everything that is put outside is named: the list only contains attributes that exist -/
 theorem outside_are_attributes : (Gen.outside.all fun ck => emittedKeys.any fun e => e.1 == ck.1 && e.2.contains ck.2) = true := by
   decide +kernel
